@@ -59,6 +59,8 @@ pub struct World {
     pub cache: Option<u64>,
     /// which backend the four stores live on (default: the instrumented flat files above)
     pub kind: Kind,
+    /// pass `overwrite = true` to the next `Storage::open` / `Storage::new_disk`
+    pub overwrite: bool,
 }
 pub type Shared = Arc<Mutex<World>>;
 
@@ -180,15 +182,16 @@ pub fn store_idx(store: &Store) -> usize {
 
 pub async fn storage(w: &Shared) -> Result<Storage, hypercore::HypercoreError> {
     let kind = w.lock().unwrap().kind.clone();
+    let overwrite = std::mem::take(&mut w.lock().unwrap().overwrite);
     match kind {
         Kind::Inst => {}
         Kind::Mem(m) => {
             return Storage::open(move |store: Store| {
                 let inner = m[store_idx(&store)].clone();
                 async move { Ok(Box::new(SharedRA(inner)) as Box<dyn StorageTraits + Send>) }.boxed()
-            }, false).await;
+            }, overwrite).await;
         }
-        Kind::Disk(d) => { return Storage::new_disk(&d.path().to_path_buf(), false).await; }
+        Kind::Disk(d) => { return Storage::new_disk(&d.path().to_path_buf(), overwrite).await; }
     }
     let w = w.clone();
     Storage::open(
@@ -197,7 +200,7 @@ pub async fn storage(w: &Shared) -> Result<Storage, hypercore::HypercoreError> {
             let w = w.clone();
             async move { Ok(Box::new(Mem { w, s }) as Box<dyn StorageTraits + Send>) }.boxed()
         },
-        false,
+        overwrite,
     )
     .await
 }
